@@ -276,7 +276,11 @@ class Interp:
             return m(self, *a, **kw)
         if isinstance(f, methodcaller):
             if a and isinstance(a[0], SymBase):
-                return getattr(a[0], f.method)(*a[1:], **kw)
+                try:
+                    meth = getattr(a[0], f.method)
+                except AttributeError:
+                    raise Unsupported(f"{type(a[0]).__name__}.{f.method} is not modelled")
+                return meth(*a[1:], **kw)
             return f(*a, **kw)
         if isinstance(f, functools.partial):
             return self.call(f.func, list(f.args) + list(a), {**f.keywords, **kw})
